@@ -2,6 +2,10 @@
 from cspuz import problem_serializer as PS
 
 
+import itertools
+_ONEOF_FORM = itertools.count()
+
+
 def build(t):
     c = t["c"]
     if c == "FixStr":
@@ -19,7 +23,18 @@ def build(t):
     if c == "MultiDigit":
         return PS.MultiDigit(t["radix"], t["digits"])
     if c == "OneOf":
-        return PS.OneOf(*[build(x) for x in t["choices"]])
+        # every legal way of writing the same alternatives: positional, one list, and mixtures of the two
+        cs = [build(x) for x in t["choices"]]
+        k = next(_ONEOF_FORM) % 5
+        if k == 1:
+            return PS.OneOf(cs)
+        if k == 2 and len(cs) >= 2:
+            return PS.OneOf(cs[0], cs[1:])
+        if k == 3 and len(cs) >= 2:
+            return PS.OneOf(cs[:-1], cs[-1])
+        if k == 4 and len(cs) >= 2:
+            return PS.OneOf(cs[:1], cs[1:])
+        return PS.OneOf(*cs)
     if c == "Tupl":
         return PS.Tupl(*[build(x) for x in t["elems"]])
     if c == "Seq":
